@@ -77,12 +77,20 @@ func genC14(repo string) (string, error) {
 	if err != nil {
 		return "", err
 	}
-	sopt := goast.SkelOpt{Conds: true, Calls: set("Save", "Remove", "storeLeaderWeightPath", "storeRegionWeightPath", "storePath",
+	sopt := goast.SkelOpt{Conds: true, Calls: set("Save", "Remove", "Load", "restoreWeight", "storeLeaderWeightPath", "storeRegionWeightPath", "storePath",
 		"loadFloatWithDefaultValue", "LoadRange", "NewStoreInfo", "SetLeaderWeight", "SetRegionWeight", "saveProto")}
 	for _, fn := range []string{"SaveStoreWeight", "SaveStore", "DeleteStore", "LoadStores"} {
 		if err := o.skeleton(stg, "Storage", fn, "skel_storage_"+fn, sopt); err != nil {
 			return "", err
 		}
+	}
+	stf, err := goast.Load(repo, "server/statistics/store.go")
+	if err != nil {
+		return "", err
+	}
+	// the filter a store heartbeat runs over the rolling statistics: a store that is gone must be tolerated
+	if err := c14Guards(&o, stf, "StoresStats", "FilterUnhealthyStore", "guards_FilterUnhealthyStore"); err != nil {
+		return "", err
 	}
 	vf, err := goast.Load(repo, "server/versioninfo/versioninfo.go")
 	if err != nil {
